@@ -24,7 +24,12 @@ func hLeaf(kind int, bits *ecs.Mask) (ecs.Filter, bool) {
 	var f ecs.Filter
 	switch kind {
 	case 0:
-		f = &m
+		// ecs.Mask implements Filter with a value receiver: both forms are in use
+		if vChoice("byvalue", 2) == 1 {
+			f = m
+		} else {
+			f = &m
+		}
 	case 1:
 		f = ANY(m)
 	case 2:
